@@ -747,3 +747,334 @@ contract(RX + 'Extractor.extract', props=['C14'], params={}, self_view=_extract_
                                    'self.examples': 'keep',
                                    'self.results': T.custom(lambda it, name: it.ghost['results_stub'])})},
          always=[('global-generator-saved-once-restored-once-and-used-only-in-between', 'prng_bracket_closed(self)')])
+
+
+# ---------------------------------------------------------------------------
+# Extractor.clean (C18 / C03 / C13): the stored examples are exactly the kept
+# examples - not null, count not 0, not an empty string when empties are
+# removed - after optional stripping, each with the total of its counts; the
+# null / empty / stripped tallies are the totals of the corresponding counts.
+# Inputs: a list, a frequency dictionary or an Examples object of 0..3 entries
+# with symbolic strings and counts; str.strip is an uninterpreted function.
+# ---------------------------------------------------------------------------
+from pyvc.sym import SymKeyDict, slen
+
+_STRIP = z3.Function('str.strip', StrS, StrS)
+
+
+def _clean_items(it, senv):
+    k = it.path.choose([True] * 4)                   # 0..3 entries
+    form = ('list', 'dict', 'examples')[it.path.choose([True] * 3)]
+    strings, counts = [], []
+    for i in range(k):
+        isnull = form != 'examples' and it.path.choose([True, True]) == 1
+        strings.append(None if isnull else it.fresh_str('example%d' % i))
+        counts.append(1 if form == 'list' else it.fresh(T.nat, 'count%d' % i))
+    if form != 'list':
+        # dictionary keys / stored examples are pairwise different
+        for a in range(k):
+            for b in range(a + 1, k):
+                if strings[a] is not None and strings[b] is not None:
+                    it.path.assume(strings[a].z != strings[b].z)
+                elif strings[a] is None and strings[b] is None:
+                    it.path.assume(z3.BoolVal(False))
+    if form == 'list':
+        ex = list(strings)
+    elif form == 'dict':
+        ex = OrderedDict(zip(strings, counts))
+    else:
+        ex = SObj('Examples', {'strings': list(strings), 'freqs': list(counts), '__open__': False}, label='examples')
+        ex.repo_class = extract.load_module('tdda/rexpy/rexpy.py').classes['Examples']
+    senv['examples'] = ex
+    it.path.inputs['examples'] = ex
+    it.ghost['clean_in'] = (strings, counts)
+
+    def counter(it2):
+        d = SymKeyDict()
+        d.default = 0
+        return d
+    it.spec_env['Counter'] = Builtin(counter, 'Counter')
+    it.spec_env['ilist'] = Builtin(lambda it2, L=None: list(L or []), 'ilist')
+
+
+def _clean_self(it):
+    o = SObj('Extractor', {'strip': it.fresh(T.bool, 'strip'), 'remove_empties': it.fresh(T.bool, 'remove_empties'),
+                           'verbose': 0, 'n_nulls': it.fresh(T.nat, 'n_nulls0'), 'n_empties': it.fresh(T.nat, 'n_empties0'),
+                           'n_stripped': it.fresh(T.nat, 'n_stripped0')}, label='self')
+    o.repo_class = extract.load_module('tdda/rexpy/rexpy.py').classes['Extractor']
+    it.ghost['clean_old'] = {k: o.attrs[k] for k in ('n_nulls', 'n_empties', 'n_stripped')}
+    return o
+
+
+def _clean_terms(it, self):
+    """Per input entry: (is kept, stored form, count, strips something, is null, is dropped empty)."""
+    strings, counts = it.ghost['clean_in']
+    strip = self.attrs['strip']
+    rem = self.attrs['remove_empties']
+    sz = strip.z if isinstance(strip, SBool) else z3.BoolVal(bool(strip))
+    rz = rem.z if isinstance(rem, SBool) else z3.BoolVal(bool(rem))
+    out = []
+    for s, n in zip(strings, counts):
+        nz = n.z if isinstance(n, SInt) else z3.IntVal(n)
+        if s is None:
+            out.append(dict(kept=z3.BoolVal(False), form=None, n=nz, null=True))
+            continue
+        form = z3.If(sz, _STRIP(s.z), s.z)
+        empty = slen(form) == 0
+        kept = z3.And(nz != 0, z3.Not(z3.And(rz, empty)))
+        out.append(dict(kept=kept, form=form, n=nz, null=False, dropped_empty=z3.And(nz != 0, rz, empty),
+                        stripped=z3.And(kept, slen(form) != slen(s.z))))
+    return out
+
+
+@specfn
+def stored_examples_are_the_kept_ones(it, self, result):
+    terms = _clean_terms(it, self)
+    strings, freqs = result.attrs['strings'], result.attrs['freqs']
+    if isinstance(strings, SList) or isinstance(freqs, SList):
+        raise Unsupported('symbolic result list')
+    if len(strings) != len(freqs):
+        return False
+    conj = []
+    keys = [strz(it, k) for k in strings]
+    fz = [f.z if isinstance(f, SInt) else z3.IntVal(int(f)) for f in freqs]
+    # stored strings pairwise different
+    for a in range(len(keys)):
+        for b in range(a + 1, len(keys)):
+            conj.append(keys[a] != keys[b])
+    live = [t for t in terms if not t['null']]
+    # every kept entry is stored, with the total count of the kept entries of the same stored form
+    for t in live:
+        total = z3.Sum([z3.If(z3.And(u['kept'], u['form'] == t['form']), u['n'], 0) for u in live])
+        conj.append(z3.Implies(t['kept'], z3.Or(*[z3.And(k == t['form'], f == total) for k, f in zip(keys, fz)])
+                               if keys else z3.BoolVal(False)))
+    # nothing else is stored
+    for k in keys:
+        conj.append(z3.Or(*[z3.And(t['kept'], t['form'] == k) for t in live]) if live else z3.BoolVal(False))
+    return SBool(z3.And(*conj)) if conj else True
+
+
+@specfn
+def tallies_are_the_totals(it, self):
+    terms = _clean_terms(it, self)
+    old = it.ghost['clean_old']
+    nulls = z3.Sum([t['n'] for t in terms if t['null']] + [z3.IntVal(0)])
+    empties = z3.Sum([z3.If(t['dropped_empty'], t['n'], 0) for t in terms if not t['null']] + [z3.IntVal(0)])
+    stripped = z3.Sum([z3.If(t['stripped'], t['n'], 0) for t in terms if not t['null']] + [z3.IntVal(0)])
+
+    def z(v):
+        return v.z if isinstance(v, SInt) else z3.IntVal(int(v))
+    return SBool(z3.And(z(self.attrs['n_nulls']) == z(old['n_nulls']) + nulls,
+                        z(self.attrs['n_empties']) == z(old['n_empties']) + empties,
+                        z(self.attrs['n_stripped']) == z(old['n_stripped']) + stripped))
+
+
+@specfn
+def pairwise_different(it, strings):
+    if isinstance(strings, SList):
+        raise Unsupported('symbolic list of strings')
+    ks = [strz(it, k) for k in strings]
+    conj = [ks[a] != ks[b] for a in range(len(ks)) for b in range(a + 1, len(ks))]
+    return SBool(z3.And(*conj)) if conj else True
+
+
+def _examples_ctor(it, env):
+    o = SObj('Examples', {'strings': env['strings'], 'freqs': env['freqs'], '__open__': False})
+    o.repo_class = extract.load_module('tdda/rexpy/rexpy.py').classes['Examples']
+    return o
+
+
+class _CleanContract(Contract):
+    def verify(self, registry=None, quick=False):
+        reg = dict(REGISTRY if registry is None else registry)
+        c = Contract(RX + 'Examples', params=dict(strings=None, freqs=None), effects=_examples_ctor, result=T.none,
+                     assumed=True, name='Examples(...)', spec_env=dict(ENV, pairwise_different=pairwise_different),
+                     requires=[('strings-pairwise-different', 'pairwise_different(strings)')],
+                     trusted_note='Examples.__init__ stores the two lists (its assert is the precondition checked at the call site); '
+                                  'update() is proved separately')
+        c.defaults = {'freqs': None}
+        reg[RX + 'Examples'] = c
+        return Contract.verify(self, reg, quick)
+
+
+_cc = _CleanContract(RX + 'Extractor.clean', props=['C18', 'C03', 'C13'], params=dict(examples=None), self_view=_clean_self,
+         on_entry=_clean_items,
+         spec_env=dict(ENV, stored_examples_are_the_kept_ones=stored_examples_are_the_kept_ones,
+                       tallies_are_the_totals=tallies_are_the_totals),
+         ensures=[('stored-examples-are-exactly-the-kept-ones-with-their-total-counts',
+                   'stored_examples_are_the_kept_ones(self, result)'),
+                  ('null-empty-and-stripped-tallies-are-the-totals', 'tallies_are_the_totals(self)')],
+         max_paths=200000)
+REGISTRY[_cc.ident] = _cc
+
+
+# ---------------------------------------------------------------------------
+# matrices2incremental_coverage (C18): the greedy crediting loop, for every
+# match matrix of up to 3 expressions x 3 examples (quick tier: 3 x 2 and 2 x 3) with SYMBOLIC frequencies
+# (>= 1) and symbolic match bits.  The loop runs at most one pass per
+# expression, so it is unrolled; all comparisons fork.
+# ---------------------------------------------------------------------------
+
+def _mic_entry(it, senv):
+    import os
+    thorough = os.environ.get('VERIF_TIER', 'quick') != 'quick'
+    np_ = 1 + it.path.choose([True] * 3)
+    ne = it.path.choose([True] * (4 if (thorough or np_ < 3) else 3))      # quick: up to 3 x 2 and 2 x 3; thorough: 3 x 3
+    freqs = []
+    for i in range(ne):
+        f = it.fresh(T.nat, 'freq%d' % i)
+        it.path.assume(f.z >= 1)
+        freqs.append(f)
+    m = [[z3.Bool(it.path.fresh_name('match_%d_%d' % (i, r))) for r in range(np_)] for i in range(ne)]
+    from pyvc.ops import simp_val
+    senv['patterns'] = ['^p%d$' % r for r in range(np_)]
+    senv['matrix'] = [[SInt(z3.If(m[i][r], freqs[i].z, 0)) for r in range(np_)] for i in range(ne)]
+    senv['deduped'] = [[SInt(z3.If(m[i][r], 1, 0)) for r in range(np_)] for i in range(ne)]
+    senv['indexes'] = list(range(np_))
+    senv['examples'] = SObj('Examples', {'strings': ['e%d' % i for i in range(ne)], 'freqs': list(freqs),
+                                         'n_uniqs': ne, '__open__': False}, label='examples')
+    it.ghost['mic'] = dict(np=np_, ne=ne, freqs=freqs, m=m)
+    for k in ('patterns', 'matrix', 'deduped', 'indexes', 'examples'):
+        it.path.inputs[k] = senv[k]
+    it.spec_env['Coverage'] = Builtin(lambda it2, n=None, n_uniq=None, incr=None, incr_uniq=None, index=None:
+                                      SObj('Coverage', {'n': n, 'n_uniq': n_uniq, 'incr': incr, 'incr_uniq': incr_uniq,
+                                                        'index': index, '__open__': False}), 'Coverage')
+
+
+def _z(v):
+    if isinstance(v, SInt):
+        return v.z
+    if isinstance(v, bool):
+        return z3.IntVal(int(v))
+    return z3.IntVal(int(v))
+
+
+@specfn
+def incremental_coverage_ok(it, result, sort_on_deduped):
+    g = it.ghost['mic']
+    np_, ne, freqs, m = g['np'], g['ne'], g['freqs'], g['m']
+    if not isinstance(result, (dict, OrderedDict)):
+        raise Unsupported('result is not a dictionary')
+    keys = list(result.keys())
+    conj = []
+    # no expression is listed twice (one that explains nothing new may be left out: the counts below cover that)
+    conj.append(z3.BoolVal(len(set(keys)) == len(keys) and all(k in ['^p%d$' % r for r in range(np_)] for k in keys)))
+    vals = [result[k] for k in keys]
+    incr = [_z(v.attrs['incr']) for v in vals]
+    incr_u = [_z(v.attrs['incr_uniq']) for v in vals]
+    order = incr_u if sort_on_deduped is True else incr
+    # non-increasing in the order requested
+    for a, b in zip(order, order[1:]):
+        conj.append(a >= b)
+    # the counts sum to the number of examples matched by some expression (all of them, when each is matched)
+    matched = [z3.Or(*m[i]) if np_ else z3.BoolVal(False) for i in range(ne)]
+    conj.append(z3.Sum(incr + [z3.IntVal(0)]) == z3.Sum([z3.If(matched[i], freqs[i].z, 0) for i in range(ne)] + [z3.IntVal(0)]))
+    conj.append(z3.Sum(incr_u + [z3.IntVal(0)]) == z3.Sum([z3.If(matched[i], 1, 0) for i in range(ne)] + [z3.IntVal(0)]))
+    # each example is credited to exactly one expression: the first listed expression that matches it
+    for pos, k in enumerate(keys):
+        r = int(k[2:-1])
+        earlier = [int(x[2:-1]) for x in keys[:pos]]
+        credit = [z3.And(m[i][r], *[z3.Not(m[i][q]) for q in earlier]) for i in range(ne)]
+        conj.append(incr[pos] == z3.Sum([z3.If(credit[i], freqs[i].z, 0) for i in range(ne)] + [z3.IntVal(0)]))
+        conj.append(incr_u[pos] == z3.Sum([z3.If(credit[i], 1, 0) for i in range(ne)] + [z3.IntVal(0)]))
+        # n / n_uniq are the expression's own totals
+        conj.append(_z(vals[pos].attrs['n']) == z3.Sum([z3.If(m[i][r], freqs[i].z, 0) for i in range(ne)] + [z3.IntVal(0)]))
+        conj.append(_z(vals[pos].attrs['n_uniq']) == z3.Sum([z3.If(m[i][r], 1, 0) for i in range(ne)] + [z3.IntVal(0)]))
+    return SBool(z3.And(*conj))
+
+
+@specfn
+def none_earlier(it, totals, p, target):
+    pz, tz = _z(p), _z(target)
+    return SBool(z3.And(*[z3.Implies(z3.IntVal(q) < pz, _z(t) < tz) for q, t in enumerate(totals)]))
+
+
+contract(RX + 'matrices2incremental_coverage', props=['C18'],
+         params=OrderedDict([('patterns', None), ('matrix', None), ('deduped', None), ('indexes', None), ('examples', None),
+                             ('sort_on_deduped', T.union(T.const(False), T.const(True)))]),
+         on_entry=_mic_entry, spec_env=dict(ENV, incremental_coverage_ok=incremental_coverage_ok, none_earlier=none_earlier),
+         loops={2: LoopSpec([('cursor-in-range', '0 <= p and p < np'),
+                             ('no-earlier-expression-reaches-the-target', 'none_earlier(sort_totals, p, target)')],
+                            havoc={'p': T.int})},
+         ensures=[('greedy-crediting-is-exact', 'incremental_coverage_ok(result, sort_on_deduped)')],
+         max_paths=400000).max_unroll = 4          # one pass per expression (<= 3), plus the pass that finds nothing left
+
+
+# -- coverage_matrices and the incremental wrapper (C18) --------------------------------------------------
+
+def _cm_entry(it, senv):
+    _cov_entry(it, senv)
+    np_ = it.path.choose([True] * 3)
+    ne = it.path.choose([True] * 3)
+    pats = [it.fresh_str('pattern%d' % r) for r in range(np_)]
+    strings = [it.fresh_str('example%d' % i) for i in range(ne)]
+    freqs = [it.fresh(T.nat, 'freq%d' % i) for i in range(ne)]
+    senv['patterns'] = pats
+    senv['examples'] = SObj('Examples', {'strings': strings, 'freqs': freqs, '__open__': False}, label='examples')
+    it.path.inputs['patterns'], it.path.inputs['examples'] = pats, senv['examples']
+    it.ghost['cm'] = (pats, strings, freqs)
+
+
+@specfn
+def matrices_ok(it, result):
+    pats, strings, freqs = it.ghost['cm']
+    matrix, deduped = result
+    fl = z3.IntVal(_RE_UNICODE | _RE_DOTALL)
+    if len(matrix) != len(strings) or len(deduped) != len(strings):
+        return False
+    conj = []
+    for i, s in enumerate(strings):
+        if len(matrix[i]) != len(pats) or len(deduped[i]) != len(pats):
+            return False
+        for r, p in enumerate(pats):
+            mt = _MATCHES(strz(it, p), fl, strz(it, s))
+            conj.append(_z(matrix[i][r]) == z3.If(mt, freqs[i].z, 0))
+            conj.append(_z(deduped[i][r]) == z3.If(z3.And(mt, freqs[i].z != 0), 1, 0))
+    return SBool(z3.And(*conj)) if conj else True
+
+
+contract(RX + 'coverage_matrices', props=['C18'], params=OrderedDict([('patterns', None), ('examples', None)]),
+         on_entry=_cm_entry, spec_env=dict(ENV, matrices_ok=matrices_ok),
+         ensures=[('one-row-per-example-holding-its-frequency-where-the-expression-matches', 'matrices_ok(result)')])
+
+
+def _full_cov(it, env):
+    keys = ['^p0$', '^p1$']
+    d = OrderedDict()
+    for k in keys:
+        d[k] = SObj('Coverage', {'n': it.fresh(T.nat, 'n'), 'n_uniq': it.fresh(T.nat, 'n_uniq'),
+                                 'incr': it.fresh(T.nat, 'incr'), 'incr_uniq': it.fresh(T.nat, 'incr_uniq'),
+                                 'index': 0, '__open__': False})
+    it.ghost['full_cov'] = (d, dict(env))
+    return d
+
+
+@specfn
+def picks_the_requested_counts(it, result, patterns, examples, sort_on_deduped):
+    d, env = it.ghost['full_cov']
+    if list(result.keys()) != list(d.keys()):
+        return False
+    if not (env['patterns'] is patterns and env['examples'] is examples and env['sort_on_deduped'] is sort_on_deduped):
+        return False
+    field = 'incr_uniq' if sort_on_deduped is True else 'incr'
+    return SBool(z3.And(*[_z(result[k]) == _z(d[k].attrs[field]) for k in d]))
+
+
+class _IncrWrapper(Contract):
+    def verify(self, registry=None, quick=False):
+        reg = dict(REGISTRY if registry is None else registry)
+        c = Contract(RX + 'rex_full_incremental_coverage',
+                     params=dict(patterns=None, examples=None, sort_on_deduped=None, debug=None), effects=_full_cov,
+                     result=T.none, assumed=True, name='rex_full_incremental_coverage(callee)')
+        c.defaults = {'sort_on_deduped': False, 'debug': False}
+        reg[RX + 'rex_full_incremental_coverage'] = c
+        return Contract.verify(self, reg, quick)
+
+
+_iw = _IncrWrapper(RX + 'rex_incremental_coverage', props=['C18'],
+                   params=OrderedDict([('patterns', T.opaque), ('examples', T.opaque),
+                                       ('sort_on_deduped', T.union(T.const(False), T.const(True))), ('debug', T.const(False))]),
+                   spec_env=dict(ENV, picks_the_requested_counts=picks_the_requested_counts),
+                   ensures=[('newly-explained-counts-with-or-without-repeats-as-requested',
+                             'picks_the_requested_counts(result, patterns, examples, sort_on_deduped)')])
+REGISTRY[_iw.ident] = _iw
